@@ -8,7 +8,7 @@ from vf import skel as _sk
 from checks.C40 import hist_ok, lines_ok, PROGRAMS
 '''
 
-KINDS = ["value", "none", "runtime-failure", "compile-failure", "incomplete", "reader-error", "value-string", "raise-custom", "reader-error-mid"]
+KINDS = ["value", "none", "runtime-failure", "compile-failure", "incomplete", "reader-error", "value-string", "raise-custom", "reader-error-mid", "nonlocal-top"]
 
 
 def _input(kind, i):
@@ -26,6 +26,9 @@ def _input(kind, i):
         return "(if %d)" % i, ("x", "HySyntaxError")
     if kind == "reader-error":
         return "(%d))" % i, ("x", "LexException")
+    if kind == "nonlocal-top":
+        # rejected when the module scope is closed; the REPL keeps one compiler (and one module scope) for the whole session
+        return "(nonlocal zz%d)" % i, ("x", "SyntaxError")
     if kind == "reader-error-mid":
         # the error is raised in the middle of the text, while the reader has already looked ahead past the bad token
         return "(setv bad%d [1 a..b])" % i, ("x", "LexException")
